@@ -111,6 +111,8 @@ class Interp(object):
         self.oob = []              # recorded out-of-bounds accesses (when not raising)
         self.raise_oob = True
         self.trace_calls = []
+        self.garbage_uninit = False
+        self.uninit_reads = []
         self.omp = None            # OmpState in footprint mode (vf/llsym/omp.py)
 
     # ------------------------------------------------------------------ helpers for harnesses
@@ -231,6 +233,12 @@ class Interp(object):
             if c is None:
                 if o.zero:
                     return ZERO if ty in ("double", "float") else (Ptr(REAL, 0) if ty.endswith("*") and self.hybrid else (None if ty.endswith("*") else 0))
+                if self.garbage_uninit and ty in ("double", "float"):
+                    # an uninitialised heap double is whatever the allocator left there: an unconstrained real (team-schedule mode)
+                    v = dag.var("uninit_%s_%d" % (o.name, i))
+                    o.cells[i] = (size, v)
+                    self.uninit_reads.append("%s+%d" % (o.name, i))
+                    return v
                 raise Unsupported("read of uninitialised bytes %s+%d" % (o.name, i))
             if c[0] != size:
                 raise Unsupported("load of %d bytes from a %d-byte cell at %s+%d" % (size, c[0], o.name, i))
